@@ -78,6 +78,8 @@ def space(tier, seed):
             else:
                 items.append({"block": "lookup", "file": f, "year": y, "tier": tier})
         items.append({"block": "vector", "file": f, "tier": tier})
+        for day in ((2019, 7, 10), (2020, 1, 18)):  # a summer Wednesday, a winter Saturday
+            items.append({"block": "sweep", "file": f, "tier": tier, "day": list(day)})
         items.append({"block": "multiyear", "file": f, "tier": tier})
         items.append({"block": "sim", "file": f, "tier": tier})
     return items
@@ -299,6 +301,50 @@ def run_vector(item, only=None):
     return viol, stats
 
 
+def run_sweep(item, only=None):
+    """price vectors from EVERY start of a grid over one day (a summer weekday, a winter weekend day): whatever the
+    start and the period, element k is the single lookup at start + k x period - in particular where start + k x period
+    falls exactly on a breakpoint"""
+    f, tier, (y, m, d_) = item["file"], item["tier"], item["day"]
+    viol, stats = [], {"n": 0, "nt": set(), "out": set()}
+    tariff = TimeOfUseTariff(f)
+    base = datetime(y, m, d_)
+    cache = {}
+
+    def ref(dt):
+        if dt not in cache:
+            cache[dt] = ref_lookup(f, dt)[0]
+        return cache[dt]
+
+    menus = [(5, 5, 288), (1, 7, 600), (20, 20, 72), (2, 14, 360), (4, 28, 180), (10, 10, 144)] if tier == "thorough" else [(5, 5, 288), (20, 20, 72), (1, 37, 600)]
+    for period, step, length in menus:
+        for start_min in range(0, 1440, step):
+            st = base + timedelta(minutes=start_min)
+            ctx = {"start": st.isoformat(), "period": period, "length": length}
+            if only is not None and only != ctx:
+                continue
+            stats["n"] += 1
+            want = [ref(st + timedelta(minutes=period * k)) for k in range(length)]
+            if any(r is None for r in want):
+                continue
+            try:
+                got = list(tariff.get_tariffs(st, length, period))
+            except Exception as exc:
+                guard(exc)
+                viol.append(("sweep:exception:%s" % type(exc).__name__, "%s: get_tariffs(%s, %d, %d) raised %r" % (f, st, length, period, exc), repr(exc), None, ctx))
+                return viol, stats
+            if got != want:
+                k = next((i for i in range(min(len(got), len(want))) if got[i] != want[i]), None)
+                on_bp = k is not None and (st + timedelta(minutes=period * k)).minute == 0
+                viol.append(("sweep:entry%s" % (":on-a-breakpoint" if on_bp else ""), "%s: get_tariffs(%s, %d, %d)[%r] = %r, the lookup at %s gives %r" % (f, st, length, period, k, got[k] if k is not None else len(got), st + timedelta(minutes=period * (k or 0)), want[k] if k is not None else len(want)), got[:5], want[:5], ctx))
+                if len(viol) > 5:
+                    return viol, stats
+            stats["out"].add((f, len(set(want))))
+            if len(set(want)) > 1 and st.minute != 0:
+                stats["nt"].add((f, st.isoformat(), period))
+    return viol, stats
+
+
 class PriceProbe(S.Scripted):
     """scripted scheduler that also queries the interface's price accessors at every invocation"""
 
@@ -454,7 +500,7 @@ def run_sim(item, only=None):
 
 
 def execute(item, only=None):
-    return {"lookup": run_lookup, "vector": run_vector, "sim": run_sim, "multiyear": run_multiyear}[item["block"]](item, only)
+    return {"sweep": run_sweep, "lookup": run_lookup, "vector": run_vector, "sim": run_sim, "multiyear": run_multiyear}[item["block"]](item, only)
 
 
 def run(item):
